@@ -1667,7 +1667,7 @@ class Mini:
             if a is not None and b is not None and {a, b} == {1, 2}:
                 return 1
             return None
-        if n in ("T", "ROWADD", "ROWADDN", "COLADD"):
+        if n in ("T", "ROWADD", "ROWADDN", "COLADD", "CAST"):
             return self.rank(t.args[0])
         if n == "RESHAPE":
             return len(t.args) - 1
@@ -1840,23 +1840,164 @@ class Mini:
             return
         raise NoVerdict("statement %s at %s" % (type(st).__name__, fi.where(st)))
 
+    # ---- loops: per-row updates ---------------------------------------------------
+    # The loop this code uses adds m[i] to row i of V for i = 0 .. N-1.  It is recognised through what each pass does, not through
+    # its spelling: the iteration scheme (range / len / shape counts, enumerate, zip, enumerate(zip), elements of V or of m bound by
+    # the loop header, temporaries in the body) is reduced to one canonical row index, and the single store of the body must then
+    # be `row <index> of V gets (itself +) element <index> of m`.
+    ROW = "row__index"
+
+    def callee_name(self, c, env, fi):
+        if not isinstance(c, ast.Call):
+            return None
+        full = self.resolve(c.func, env, fi)
+        if full is None and isinstance(c.func, ast.Name) and c.func.id not in env:
+            full = c.func.id
+        return full
+
+    def iter_bind(self, target, it, env, fi, sub, lens):
+        """one `for <target> in <it>` header: names bound per pass -> expression over the canonical row index (sub); number of
+        passes each iterable allows (lens)"""
+        full = self.callee_name(it, env, fi)
+        plain = isinstance(it, ast.Call) and not any(isinstance(a, ast.Starred) for a in it.args)
+        if full == "enumerate" and plain and isinstance(target, (ast.Tuple, ast.List)) and len(target.elts) == 2 and isinstance(target.elts[0], ast.Name):
+            start = [k.value for k in it.keywords if k.arg == "start"] + list(it.args[1:2])
+            if len(it.args) + len(it.keywords) > 2 or not it.args or len(start) != len(it.args) + len(it.keywords) - 1 \
+                    or any(self.ev(x, env, fi) != sp.Integer(0) for x in start):
+                raise NoVerdict("enumerate arguments at %s" % fi.where(it))
+            sub[target.elts[0].id] = ast.Name(id=self.ROW, ctx=ast.Load())
+            self.iter_bind(target.elts[1], it.args[0], env, fi, sub, lens)
+            return
+        if full == "zip" and plain and not [k for k in it.keywords if k.arg != "strict"] and isinstance(target, (ast.Tuple, ast.List)) \
+                and len(target.elts) == len(it.args) and it.args:
+            for t, x in zip(target.elts, it.args):
+                self.iter_bind(t, x, env, fi, sub, lens)
+            return
+        if not isinstance(target, ast.Name):
+            raise NoVerdict("loop target `%s` at %s" % (norm(target), fi.where(target)))
+        if full in ("range", "numpy.arange") and plain and not it.keywords and 1 <= len(it.args) <= 3:
+            args = [self.ev(x, env, fi) for x in it.args]
+            if (len(args) >= 2 and args[0] != sp.Integer(0)) or (len(args) == 3 and args[2] != sp.Integer(1)):
+                raise NoVerdict("range arguments at %s" % fi.where(it))
+            sub[target.id] = ast.Name(id=self.ROW, ctx=ast.Load())
+            lens.append(term(args[0] if len(args) == 1 else args[1]))
+            return
+        x = self.ev(it, env, fi)        # the elements of an array (rows of V, entries of m)
+        if x is UNK or not isinstance(x, sp.Basic) or not isinstance(it, (ast.Name, ast.Attribute)):
+            raise NoVerdict("iteration over `%s` at %s" % (norm(it)[:60], fi.where(it)))
+        sub[target.id] = ast.Subscript(value=it, slice=ast.Name(id=self.ROW, ctx=ast.Load()), ctx=ast.Load())
+        lens.append(LEN(x))
+
+    def subst(self, node, sub):
+        import copy
+
+        class S(ast.NodeTransformer):
+            def visit_Name(s_, n):
+                return copy.deepcopy(sub[n.id]) if n.id in sub else n
+        return ast.fix_missing_locations(S().visit(copy.deepcopy(node)))
+
+    def whole_row(self, t):
+        """V when the expression t is the whole of row <canonical index> of V (`V[i]`, `V[i, :]`, `V[i, ...]`, `V[i][:]`), else None"""
+        if not isinstance(t, ast.Subscript):
+            return None
+        s = t.slice
+        is_row = lambda x: isinstance(x, ast.Name) and x.id == self.ROW
+        full = lambda x: (isinstance(x, ast.Slice) and x.lower is None and x.upper is None and x.step is None) or (isinstance(x, ast.Constant) and x.value is Ellipsis)
+        if is_row(s) or (isinstance(s, ast.Tuple) and s.elts and is_row(s.elts[0]) and all(full(x) for x in s.elts[1:])):
+            return t.value
+        if full(s) or (isinstance(s, ast.Tuple) and s.elts and all(full(x) for x in s.elts)):
+            return self.whole_row(t.value)
+        return None
+
+    def element(self, t):
+        """m when the expression t is element <canonical index> of m, else None"""
+        if isinstance(t, ast.Subscript) and isinstance(t.slice, ast.Name) and t.slice.id == self.ROW \
+                and not any(isinstance(x, ast.Name) and x.id == self.ROW for x in ast.walk(t.value)):
+            return t.value
+        return None
+
+    def row_plus_element(self, e, env, fi, want=None):
+        """(V, m) when e is `row of V + element of m` in either order (also numpy.add(.., ..)), else None; want: the text of V when
+        it is known (the array stored into)"""
+        if isinstance(e, ast.BinOp) and isinstance(e.op, ast.Add):
+            ops = [e.left, e.right]
+        elif isinstance(e, ast.Call) and self.callee_name(e, env, fi) == "numpy.add" and len(e.args) == 2 and not e.keywords:
+            ops = list(e.args)
+        else:
+            return None
+        out = []
+        for a, b in (ops, ops[::-1]):
+            V, m = self.whole_row(a), self.element(b)
+            if V is not None and m is not None and (want is None or norm(V) == want):
+                out.append((V, m))
+        if len(out) == 2:
+            # `x[i] + y[i]`: the array with rows is the one of rank 2 (the other, of rank 1 or unknown, holds one number per row)
+            def fits(V, m):
+                try:
+                    return self.rank(term(self.ev(symx._load(V), env, fi))) == 2 and self.rank(term(self.ev(m, env, fi))) in (1, None)
+                except NoVerdict:
+                    return False
+            out = [x for x in out if isinstance(x[0], (ast.Name, ast.Attribute)) and fits(*x)]
+        return out[0] if len(out) == 1 else None
+
+    def passes(self, lens):
+        ls = sorted(set(lens), key=str)
+        return ls[0] if len(ls) == 1 else Fn("MINLEN")(*ls)
+
     def loop(self, st, env, fi):
-        """the one loop idiom of this code: `for i in range(N): V[i, :] += m[i]` (row i of V gets m[i] added)"""
-        from vcheck import pat
-        if len(st.body) == 1 and not st.orelse and isinstance(st.target, ast.Name):
-            b = None
-            for p in ("_V[_I, :] += _M[_I]", "_V[_I] += _M[_I]", "_V[_I, :] = _V[_I, :] + _M[_I]", "_V[_I] = _V[_I] + _M[_I]"):
-                b = pat.match(p, st.body[0])
-                if b is not None:
-                    break
-            r = pat.match("range(_N)", st.iter)
-            if b is not None and r is not None and isinstance(b["_I"], ast.Name) and b["_I"].id == st.target.id and isinstance(b["_V"], (ast.Name, ast.Attribute)):
-                v = self.ev(symx._load(b["_V"]), env, fi)
-                m = self.ev(b["_M"], env, fi)
-                n = self.ev(r["_N"], env, fi)
-                self.assign(b["_V"], ROWADDN(term(v), term(m), term(n)), env, fi)
-                return
-        raise NoVerdict("loop at %s" % fi.where(st))
+        """`for i in range(N): V[i, :] += m[i]` in any spelling of the iteration and of the store: V becomes ROWADDN(V, m, N)"""
+        if st.orelse or not st.body:
+            raise NoVerdict("loop at %s" % fi.where(st))
+        sub, lens = {}, []
+        try:
+            self.iter_bind(st.target, st.iter, env, fi, sub, lens)
+        except NoVerdict as ex:
+            raise NoVerdict("loop at %s (%s)" % (fi.where(st), ex))
+        header = {x.id for x in ast.walk(st.iter) if isinstance(x, ast.Name)}
+        for s_ in st.body[:-1]:
+            # temporaries of one pass (`mi = mean[i]`, `row = V[i]`): replaced by what they stand for
+            if isinstance(s_, ast.Expr) and isinstance(s_.value, ast.Constant):
+                continue
+            if not (isinstance(s_, ast.Assign) and len(s_.targets) == 1 and isinstance(s_.targets[0], ast.Name)) \
+                    or s_.targets[0].id in sub or s_.targets[0].id in header:
+                raise NoVerdict("loop at %s: statement `%s`" % (fi.where(st), norm(s_)[:60]))
+            sub[s_.targets[0].id] = self.subst(s_.value, sub)
+        last = st.body[-1]
+        view = False
+        V = m = None
+        if isinstance(last, ast.AugAssign) and isinstance(last.op, ast.Add):
+            view = isinstance(last.target, ast.Name)       # `row += mi`: updates V only when row is a view of it (V has rows)
+            if not view or last.target.id in sub:
+                V, m = self.whole_row(self.subst(last.target, sub)), self.element(self.subst(last.value, sub))
+        elif isinstance(last, ast.Assign) and len(last.targets) == 1 and not isinstance(last.targets[0], ast.Name):
+            V = self.whole_row(self.subst(last.targets[0], sub))
+            got = self.row_plus_element(self.subst(last.value, sub), env, fi, norm(V)) if V is not None else None
+            if got is not None:
+                m = got[1]
+        if V is None or m is None or not isinstance(V, (ast.Name, ast.Attribute)):
+            raise NoVerdict("loop at %s" % fi.where(st))
+        v = self.ev(symx._load(V), env, fi)
+        if view and self.rank(term(v)) != 2:
+            raise NoVerdict("loop at %s: `%s` updates a loop variable in place" % (fi.where(st), norm(last)[:60]))
+        mt = self.ev(m, env, fi)
+        if v is UNK or mt is UNK:
+            raise NoVerdict("loop at %s" % fi.where(st))
+        self.assign(V, ROWADDN(term(v), term(mt), self.passes(lens)), env, fi)
+
+    def rows_built(self, e, env, fi):
+        """`[V[i] + m[i] for i in range(N)]` (any spelling of the iteration): the rows of ROWADDN(V, m, N), as a list"""
+        if len(e.generators) != 1 or e.generators[0].ifs or e.generators[0].is_async:
+            raise NoVerdict("comprehension at %s" % fi.where(e))
+        g = e.generators[0]
+        sub, lens = {}, []
+        self.iter_bind(g.target, g.iter, env, fi, sub, lens)
+        got = self.row_plus_element(self.subst(e.elt, sub), env, fi)
+        if got is None or not isinstance(got[0], (ast.Name, ast.Attribute)):
+            raise NoVerdict("comprehension at %s" % fi.where(e))
+        v, mt = self.ev(symx._load(got[0]), env, fi), self.ev(got[1], env, fi)
+        if v is UNK or mt is UNK:
+            raise NoVerdict("comprehension at %s" % fi.where(e))
+        return Fn("ROWS")(ROWADDN(term(v), term(mt), self.passes(lens)))
 
     def assign(self, t, v, env, fi):
         if isinstance(t, ast.Name):
@@ -2087,6 +2228,8 @@ class Mini:
             return tuple(self.ev(x, env, fi) for x in e.elts)
         if isinstance(e, ast.List):
             return sp.Tuple(*[term(self.ev(x, env, fi)) for x in e.elts])
+        if isinstance(e, ast.ListComp):
+            return self.rows_built(e, env, fi)
         if isinstance(e, ast.Dict):
             # a table with literal keys (a dispatch table of bound methods / functions, a table of constants); an entry the
             # evaluator does not model only matters when it is the one selected
@@ -2199,6 +2342,12 @@ class Mini:
             full = f.id
         if full is not None:
             leaf = full.rsplit(".", 1)[-1]
+            if args and fname(args[0]) == "ROWS":
+                # an array made of the list of its rows
+                axis0 = not c.keywords or ([k.arg for k in c.keywords] == ["axis"] and self.ev(c.keywords[0].value, env, fi) == sp.Integer(0))
+                if len(args) == 1 and ((full in ("numpy.vstack", "numpy.stack") and axis0) or (full in ("numpy.array", "numpy.asarray") and not c.keywords)):
+                    return args[0].args[0]
+                raise NoVerdict("list of rows passed to `%s` at %s" % (norm(c)[:60], fi.where(c)))
             if full in IDENT_FUNCS and args:
                 return self.converted(full, c, args, env, fi) if self.keep_casts else args[0]
             if self.keep_casts and len(args) == 1 and not c.keywords and _dtype_info(sp.Symbol(full)) is not None and full.startswith("numpy."):
@@ -2687,7 +2836,10 @@ def _resolve_rowadd(mv, t):
     t = t.func(*[_resolve_rowadd(mv, a) for a in t.args])
     if fname(t) == "ROWADDN":
         V, m, N = t.args
-        if N in (rows(V), LEN(m), SIZE(m)) and N is not None:
+        # every row is visited when the count is the row count of V or the length of m (which the constructor / the length guard
+        # make equal); passes driven by several iterables (zip) stop at the shortest, so each of them has to be one of these
+        full = [x for x in (rows(V), LEN(V), AT_(SHAPE(V), 0), LEN(m), SIZE(m), AT_(SHAPE(m), 0)) if x is not None]
+        if all(n in full for n in (N.args if fname(N) == "MINLEN" else [N])):
             return ROWADD(V, m)
     return t
 
